@@ -215,4 +215,55 @@ def st_case_t(ctx: Ctx):
     return st_case(ctx).map(lambda d: {**d, "thorough": ctx.thorough})
 
 
-PARTS = [Part("trees", check_tree, strategy=st_case_t, quick=2400, thorough=48000)]
+def enum_deep(ctx: Ctx):
+    for shape in ("one", "items", "child", "mixed"):
+        for factor in ((2, 4) if ctx.thorough else (2,)):
+            for cut in (0, 1, 2):
+                yield {"shape": shape, "factor": factor, "cut": cut}
+
+
+def check_deep(data: dict, lab: Labels) -> None:
+    """a chain far deeper than the recursion limit: every walker still yields every position"""
+    from pbt import origins as og
+
+    depth = T.deep_depth(data["factor"])
+    nodes = T.build_chain(depth, data["shape"], og.make_sources())
+    root = nodes[0]
+    pos = T.chain_positions(nodes)
+    lab.tag("deep-chain")
+    lab.sample_class = "deep"
+
+    def same(name: str, got: list, exp: list) -> None:
+        require(len(got) == len(exp), name + "-sequence", f"depth {depth}: {len(got)} positions, expected {len(exp)}")
+        for g, (c, p, fn, i) in zip(got, exp):
+            require(g.node is c and g.parent is p and g.field.name == fn and g.findex == i, name + "-sequence",
+                    f"depth {depth}: wrong position info")
+
+    cut = data["cut"]
+    if cut == 0:
+        same("dfs-deep", list(root.dfs()), pos)
+        same("dfs-bottom-up-deep", list(root.dfs(bottom_up=True)), pos[::-1])
+        same("bfs-deep", list(root.bfs()), pos)
+        got = list(root.gather(M.cls("LeafA")))
+        require(len(got) == 1 and got[0] is nodes[-1], "gather-deep", f"depth {depth}")
+        lab.nontrivial = True
+        return
+    # prune (cut == 1) / filter (cut == 2) below the middle
+    mid = nodes[len(nodes) // 2]
+    below = {id(n) for n in nodes[len(nodes) // 2 + 1:]}
+    if cut == 1:
+        exp = [p for p in pos if id(p[0]) not in below]
+        same("dfs-deep", list(root.dfs(prune=lambda i: i.node is mid)), exp)
+        same("dfs-bottom-up-deep", list(root.dfs(prune=lambda i: i.node is mid, bottom_up=True)), exp[::-1])
+        same("bfs-deep", list(root.bfs(prune=lambda i: i.node is mid)), exp)
+    else:
+        exp = [p for p in pos if id(p[0]) in below]
+        same("dfs-deep", list(root.dfs(filter=lambda i: id(i.node) in below)), exp)
+        same("dfs-bottom-up-deep", list(root.dfs(filter=lambda i: id(i.node) in below, bottom_up=True)), exp[::-1])
+        same("bfs-deep", list(root.bfs(filter=lambda i: id(i.node) in below)), exp)
+    lab.nontrivial = True
+
+
+PARTS = [Part("trees", check_tree, strategy=st_case_t, quick=2400, thorough=48000),
+         Part("deep", check_deep, enumerate=enum_deep,
+              exhaustive_note="4 chain shapes x depth 2x (thorough: and 4x) the recursion limit x {no predicate, prune, filter}")]
